@@ -58,7 +58,7 @@ func e2e(run *ev.Run, unit int64, r *rand.Rand, dir string) {
 	case 3:
 		limit = []float64{2, 5}[(unit/4)%2]
 	}
-	u := gen.NewUniverse(r, gen.Opts{NLogs: 1 + r.IntN(3), MaxSize: 30, Branches: 2 + r.IntN(2), ShareKeys: true})
+	u := gen.NewUniverse(r, gen.Opts{NLogs: 1 + r.IntN(3), MaxSize: 30, Branches: 2 + r.IntN(2), ShareKeys: true, SameKeyNames: true})
 	keys, _ := wit.NewWitKeys(r, []bool{false, true}, true)
 	var y strings.Builder
 	y.WriteString("Logs:\n")
